@@ -20,6 +20,8 @@ import (
 	"runtime"
 	"sync"
 
+	"github.com/cloudwego/hertz/internal/bytesconv"
+	"github.com/cloudwego/hertz/internal/bytestr"
 	"github.com/cloudwego/hertz/pkg/network"
 	"github.com/cloudwego/hertz/pkg/protocol"
 	"github.com/cloudwego/hertz/pkg/protocol/http1/ext"
@@ -46,8 +48,7 @@ type chunkedBodyWriter struct {
 // Write will encode chunked p before writing
 // It will only return the length of p and a nil error if the writing is successful or 0, error otherwise.
 //
-// NOTE: Write will use the user buffer to flush.
-// Before flush successfully, the buffer b should be valid.
+// p is copied: it may be reused as soon as Write returns.
 func (c *chunkedBodyWriter) Write(p []byte) (n int, err error) {
 	if !c.wroteHeader {
 		c.r.Header.SetContentLength(-1)
@@ -60,9 +61,19 @@ func (c *chunkedBodyWriter) Write(p []byte) (n int, err error) {
 		// a zero-length chunk is the terminating chunk: it must only be written by Finalize
 		return 0, nil
 	}
-	if err = ext.WriteChunk(c.w, p, false); err != nil {
-		return
+	// The caller owns p again as soon as Write returns (io.Writer; Response.AppendBody and RequestContext.Write
+	// promise the same), but network.Writer.WriteBinary keeps referring to large slices until the next Flush.
+	// So the chunk data is copied into a buffer of the writer instead of being handed to WriteBinary.
+	if err = bytesconv.WriteHexInt(c.w, len(p)); err != nil {
+		return 0, err
 	}
+	c.w.WriteBinary(bytestr.StrCRLF) //nolint:errcheck
+	buf, err := c.w.Malloc(len(p))
+	if err != nil {
+		return 0, err
+	}
+	copy(buf, p)
+	c.w.WriteBinary(bytestr.StrCRLF) //nolint:errcheck
 	return len(p), nil
 }
 
